@@ -408,6 +408,7 @@ class StmtMixin(object):
         if head is None:
             return
         exit_ = self.join_node(s, 'endloop')
+        self.g.n(head).data['exit'] = exit_
         self.widen(names, head)
         pre = dict(self.frame.env.vars)
         t, f, rt, rf, c = self.ev_cond(s.test)
@@ -501,6 +502,7 @@ class StmtMixin(object):
 
     def unroll(self, items, per_item, node):
         exit_ = self.join_node(node, 'endloop')
+        self.emit('loop', node, {'kind': 'unrolled', 'exit': exit_, 'n': len(items)})
         envs = []
         for i, val in enumerate(items):
             if self.cur is None:
@@ -535,6 +537,7 @@ class StmtMixin(object):
     def generic_loop(self, it, per_item, names, node):
         head = self.emit('loop', node, {'kind': 'for', 'iter': it})
         exit_ = self.join_node(node, 'endloop')
+        self.g.n(head).data['exit'] = exit_
         self.widen(names, head)
         pre = dict(self.frame.env.vars)
         self.g.edge(head, exit_, 'exhausted')
@@ -562,7 +565,9 @@ class StmtMixin(object):
             self.diag('recursion', 'recursive generator %s cut' % gen.func.qualname, node)
             return self.generic_loop(Unknown('recursive-generator'), per_item, names, node)
         exit_ = self.join_node(node, 'endloop')
-        head = self.emit('loop', node, {'kind': 'generator', 'gen': gen.func.qualname})
+        head = self.emit('loop', node, {'kind': 'generator', 'gen': gen.func.qualname,
+                                        'exit': exit_, 'genobj': gen,
+                                        'gen_args': dict(gframe.env.vars)})
         self.widen(names, head)
         pre = dict(self.frame.env.vars)
         cframe = self.frame
